@@ -108,6 +108,22 @@ theorem gen_src_string_move_assign : src_string_move_assign =
 theorem gen_src_string_construct_with_meta : src_string_construct_with_meta =
     "{allocator.construct(ptr);stable_reserve(*ptr,meta.capacity);}" := rfl
 
+/-! reusable string: every assignment operator and converting constructor of `MonotonicBasicString` (string.h) -/
+theorem gen_src_string_ctor_move_alloc : src_string_ctor_move_alloc =
+    "noexcept:Base(allocator){operator=(::std::move(other));}" := rfl
+theorem gen_src_string_ctor_std_alloc : src_string_ctor_std_alloc =
+    "noexcept:Base(other.begin(),other.end(),allocator){}" := rfl
+theorem gen_src_string_assign_std : src_string_assign_std =
+    "{static_cast<Base*>(this)->assign(other.c_str(),other.size());return*this;}" := rfl
+theorem gen_src_string_copy_assign : src_string_copy_assign =
+    "{*static_cast<Base*>(this)=other;return*this;}" := rfl
+theorem gen_src_string_swap : src_string_swap =
+    "{assert(get_allocator()==other.get_allocator()&&\"cannotswapstringwithdifferentallocator\");Base::swap(other);}" := rfl
+theorem gen_src_string_resize_default_init : src_string_resize_default_init =
+    "{::absl::strings_internal::STLStringResizeUninitialized(static_cast<Base*>(this),size);}" := rfl
+/-- the remaining assignment overloads (string_view, iterator range, …) are `std::basic_string`'s own -/
+theorem gen_string_inherits_base_assign : stringInheritsBaseAssign = true := by decide
+
 /-! protobuf messages: the capacity-metadata round trip (message.cpp, message.h) -/
 theorem gen_src_msg_update : src_msg_update =
     "{if(!_initialized){initialize(message);}auto*reflection=message.GetReflection();for(auto&field:_fields){field.update(message,reflection);}}" := rfl
